@@ -733,10 +733,44 @@ func (e *c11Env) doWithdrawSurplus(target int, ids []uint64) bool {
 			seen[id] = true
 		}
 	}
+	// sometimes the basket module account has staking rewards on record (x/multistaking); the proposal claims them from
+	// the fee collector and forwards them - when the fee collector cannot pay, NOTHING of the proposal may stay
+	rewards := sdk.Coins{}
+	if e.r.Rng.Intn(2) == 0 {
+		rewards = sdk.NewCoins(sdk.NewInt64Coin("ukex", int64(1+e.r.Rng.Intn(50000))), sdk.NewInt64Coin("ueth", int64(1+e.r.Rng.Intn(3000))))
+		fund := rewards
+		switch e.r.Rng.Intn(3) {
+		case 0:
+			fund = sdk.NewCoins(rewards[1]) // short of one denomination
+		case 1:
+			fund = sdk.NewCoins(sdk.NewCoin(rewards[0].Denom, rewards[0].Amount.SubRaw(1)), rewards[1]) // one unit short
+		}
+		donor := e.holders[e.r.Rng.Intn(len(e.holders))]
+		feeAddr := authtypes.NewModuleAddress(authtypes.FeeCollectorName)
+		if err := e.w.app.BankKeeper.SendCoinsFromAccountToModule(e.ctx, e.w.addrs[donor], authtypes.FeeCollectorName, fund); err == nil {
+			e.w.app.MultiStakingKeeper.SetDelegatorRewards(e.ctx, e.modAddr, rewards)
+			bals := func(a sdk.AccAddress) string {
+				var cs []sdk.Coin
+				for _, d := range c11Denoms {
+					cs = append(cs, sdk.NewCoin(d, sdkmath.NewIntFromBigInt(e.bal(a, d))))
+				}
+				return c11Coins(cs)
+			}
+			e.op(fmt.Sprintf("basket setbal a=%d %s", donor, bals(e.w.addrs[donor])), "ok")
+			e.op(fmt.Sprintf("basket setbal a=999999 %s", bals(feeAddr)), "ok")
+			e.op("basket modrewards "+c11Coins(rewards), "ok")
+			e.r.Count(fmt.Sprintf("withdraw-surplus:module-rewards:fee-collector-covers=%v", fund.IsEqual(rewards)))
+		} else {
+			rewards = sdk.Coins{}
+		}
+	}
+	before = e.snap(target)
 	tb := e.w.app.BankKeeper.GetAllBalances(e.ctx, e.w.addrs[target])
-	err := withCache(e.ctx, func(c sdk.Context) error {
-		return e.k.BasketWithdrawSurplus(c, baskettypes.ProposalBasketWithdrawSurplus{BasketIds: ids, WithdrawTarget: e.w.addrs[target].String()})
-	})
+	err := e.w.Enact(e.ctx, 1, &baskettypes.ProposalBasketWithdrawSurplus{BasketIds: ids, WithdrawTarget: e.w.addrs[target].String()})
+	if err != nil {
+		// the record of a failed claim stays; forget it so that later proposals of the episode are not all blocked by it
+		e.w.app.MultiStakingKeeper.RemoveDelegatorRewards(e.ctx, e.modAddr)
+	}
 	var is []string
 	for _, id := range ids {
 		is = append(is, fmt.Sprint(id))
@@ -747,9 +781,13 @@ func (e *c11Env) doWithdrawSurplus(target int, ids []uint64) bool {
 	e.checkInv(before, e.snap(target), "withdraw-surplus")
 	if err == nil {
 		got := e.w.app.BankKeeper.GetAllBalances(e.ctx, e.w.addrs[target]).Sub(tb...)
+		owedSurplus = owedSurplus.Add(rewards...)
 		if !got.IsEqual(owedSurplus) {
 			e.fail("C11/withdraw-surplus/paid-ne-recorded-surplus", fmt.Sprintf("proposal over baskets %v paid %s to the target, the recorded surplus of those baskets was %s", ids, got, owedSurplus))
 		}
+	}
+	if err != nil && len(rewards) > 0 {
+		e.op("basket modrewards -", "ok") // see above: the harness removed the record
 	}
 	for id := range seen {
 		e.observe(id)
